@@ -462,8 +462,8 @@ func PrecondsHold(s *Snapshot, blockTime time.Time, signer string, m sdk.Msg) (h
 		}
 		// liveness does not need the exact fee to be representable in 34 digits (fee rates may have
 		// many decimals); it needs amounts small enough that 34-digit rounding stays far below one unit
-		if RatAdd(ref.Cost, ref.BuyerFee).Cmp(RatInt(pow10(28))) >= 0 || ref.SellerFee.Cmp(ref.Cost) > 0 {
-			return no("amounts too large for the liveness rule / seller fee above the cost")
+		if RatAdd(ref.Cost, ref.BuyerFee).Cmp(RatInt(pow10(28))) >= 0 {
+			return no("amounts too large for the liveness rule")
 		}
 		oq, _ := DecOrZero(o.Quantity)
 		if ref.Qty.Cmp(oq) > 0 {
